@@ -381,6 +381,8 @@ def run_case(case):
                     if r != 'segments':
                         raise
             newref, exc, desc, call = _apply(seg, ref, op, args)
+            if case.get('twin') and exc is None and op == 'relabel_consecutive':
+                newref = newref + (newref > 0)     # perturbed oracle
             hist.append((reads, desc))
             ctx.stats.obligations += 1
             cnt['n'] += 1
@@ -433,6 +435,8 @@ def cases(tier, seed):
     starts = list(_pool()) + ['deblended']
     for s in starts:
         cs.append(dict(name=f'hist1-{s}', start=s, steps=1, reads=1))
+    cs.append(dict(name='hist1-twin-gaps', start='gaps-int64', steps=1,
+                   reads=0, twin=True))
     for a in PAIR_ATTRS:
         cs.append(dict(name=f'hist1-readpairs-deblended-{a}',
                        start='deblended', steps=1, reads=2, read0=[a],
